@@ -727,6 +727,10 @@ func (s *bbrSim) pendingProgress() bool {
 // ---------------------------------------------------------------- generator
 
 func (c *verifBbr) Gen(r *vh.RNG, n int, emit func(op string, tags ...string)) {
+	if c.coreOnly {
+		c.genFat(r, n, emit)
+		return
+	}
 	// n = number of ops; traces of ~2000 ops, every 6th trace is a clean fixed-capacity path
 	profs := []string{"std", "con", "agg"}
 	done := 0
@@ -744,18 +748,7 @@ func (c *verifBbr) Gen(r *vh.RNG, n int, emit func(op string, tags ...string)) {
 		if clean {
 			per = min(3*per, max(n-done, 50)) // clean fixed-capacity paths run longer (utilisation after start-up)
 		}
-		// one long fat loss-free path per 100 traces: start-up drives the window up to the 20000-packet cap
-		fat := k == 20 && n-done >= 90000
-		if fat {
-			clean, per = true, 90000
-			prof = profs[r.Intn(3)]
-		}
 		s := newSim(r.Fork(), c, emit, prof, clean)
-		if fat {
-			s.fat = true
-			s.capBps, s.rttNs, s.ackEvery = 600e6, 300e6, 10
-			s.queueBytes = 8 * s.capBps * float64(s.rttNs) / 1e9
-		}
 		s.run(per)
 		done += s.ops
 		if s.ops == 0 {
@@ -765,6 +758,20 @@ func (c *verifBbr) Gen(r *vh.RNG, n int, emit func(op string, tags ...string)) {
 			"a0max:"+bucketOf(c.maxA0), "slotsmax:"+bucketOf(c.maxSlots))
 		done++
 		k++
+	}
+}
+
+// genFat (component `bbrfat`): long fat loss-free paths on which start-up drives the window up to the
+// 20000-packet cap; one trace per 90 000 ops, profile drawn from the seed.
+func (c *verifBbr) genFat(r *vh.RNG, n int, emit func(op string, tags ...string)) {
+	profs := []string{"std", "con", "agg"}
+	for done := 0; done < n; {
+		s := newSim(r.Fork(), c, emit, profs[r.Intn(3)], true)
+		s.fat = true
+		s.capBps, s.rttNs, s.ackEvery = 600e6, 300e6, 10
+		s.queueBytes = 8 * s.capBps * float64(s.rttNs) / 1e9
+		s.run(90000)
+		done += s.ops + 1
 	}
 }
 
